@@ -259,7 +259,7 @@ def classify(effects):
                 t = [str(c) for c in st.node.children if isinstance(c, lark.Token) and c.type == "NAME"][0]
                 out.append(Eff(st.kind, t, st, args, fa, raw=q, how=k))
             elif st.kind == "select":
-                si = Q.select_info(st.node)
+                si = Q.select_info(st.node, allow_limit=True)
                 out.append(Eff("select", si.source[1] if si.source[0] == "table" else "<sub>", st, args, fa, raw=q, how=k))
             else:
                 out.append(Eff(st.kind, None, st, args, fa, raw=q, how=k))
@@ -418,9 +418,17 @@ def unit_gff_finish(U, prefix="C02", only_level1=True):
     the clause demands that the composed edges themselves are level-1 edges."""
     for keep in (False, True, ".sfx"):
         it, fs = _gff_interp()
-        a_s, a_v = sval("a")
-        c_s, c_v = sval("c")
-        vars_ = {"a": a_v, "c": c_v}
+        # two generic rows per result (contents symbolic, equal or different): a loop-carried dependency between
+        # iterations (a "seen" set, a counter, a first-row flag) shows up on the second row; independence of
+        # further iterations is the generic-element rule (assumption recorded in the evidence)
+        A = [sval("a%d" % i) for i in (1, 2)]
+        Cs = {i: [sval("c%d%d" % (i + 1, j)) for j in (1, 2)] for i in (0, 1)}
+        a_s, a_v = A[0]
+        c_s, c_v = Cs[0][0]
+        vars_ = {"a1": A[0][1], "a2": A[1][1]}
+        for i in Cs:
+            for j, (s_, v_) in enumerate(Cs[i]):
+                vars_["c%d%d" % (i + 1, j + 1)] = v_
         state = {}
 
         def run(ctx, keep=keep):
@@ -428,22 +436,24 @@ def unit_gff_finish(U, prefix="C02", only_level1=True):
                 st = Q.parse(q)
                 if st.kind != "select":
                     return []
-                si = Q.select_info(st.node)
+                si = Q.select_info(st.node, allow_limit=True)
                 if si.source[1] == "features":
-                    state["driver"] = (q, args)
-                    return [ghostdb.GhostRow(["id"], [a_s])]
-                state["nested"] = (q, args)
-                return [ghostdb.GhostRow(["child"], [c_s])]
+                    return [ghostdb.GhostRow(["id"], [A[0][0]]), ghostdb.GhostRow(["id"], [A[1][0]])]
+                which = [i for i in (0, 1) if len(args) == 1 and args[0] is A[i][0]]
+                if not which:
+                    raise Undecided("grandchild query is not driven by the scanned id")
+                return [ghostdb.GhostRow(["child"], [c[0]]) for c in Cs[which[0]]]
             conn = ghostdb.GhostConn(result_for=result_for)
             cr = blank_creator(C._GFFDBCreator, conn, _keep_tempfiles=keep)
+            ctx.assumed_models.add("generic-rows(2 per result; iteration independence beyond two rows)")
             it.call(C._GFFDBCreator._update_relations, [cr], {})
             return None
         base = "%s.gff.finish[keep=%s]" % (prefix, keep)
 
         def replay(m):
-            # chain g -> m -> e plus a second parent: level-2 rows must be exactly the compositions
+            # chain g -> m -> e plus a second parent and a second grandparent: level-2 rows must be exactly the compositions
             mk = lambda i, t, par=None: F.Feature(seqid="c", featuretype=t, start=1, end=9, attributes=dict({"ID": [i]}, **({"Parent": par} if par else {})))
-            feats = [mk("e", "exon", ["m", "m2"]), mk("g", "gene"), mk("m", "mRNA", ["g"]), mk("m2", "mRNA", ["g", "ghost"]), mk("x", "CDS", ["e"])]
+            feats = [mk("e", "exon", ["m", "m2"]), mk("g", "gene"), mk("g2", "gene"), mk("m", "mRNA", ["g"]), mk("m2", "mRNA", ["g2", "ghost"]), mk("x", "CDS", ["e"])]
             try:
                 db, rel = native_gff3_relations(feats)
             except Exception as e:
@@ -458,8 +468,8 @@ def unit_gff_finish(U, prefix="C02", only_level1=True):
             sel = [e for e in effs if e.kind == "select"]
             ins = [e for e in effs if e.kind == "insert"]
             dml_feat = [e for e in effs if e.table == "features" and e.kind in ("insert", "update", "delete")]
-            ok = len(sel) == 2 and len(ins) == 1 and not dml_feat and ins[0].table == "relations"
-            U.prove(base + ".shape#p%d" % p.index, "statements: scan of feature ids, grandchild query per id, one executemany INSERT into relations; features untouched", [], z3.BoolVal(ok), {}, replay=replay)
+            ok = len(sel) == 3 and len(ins) == 1 and not dml_feat and ins[0].table == "relations"
+            U.prove(base + ".shape#p%d" % p.index, "statements: scan of feature ids, one grandchild query per scanned id, one executemany INSERT into relations; features untouched", [], z3.BoolVal(ok), {}, replay=replay)
             if not ok:
                 continue
             # driver: all ids
@@ -468,6 +478,7 @@ def unit_gff_finish(U, prefix="C02", only_level1=True):
                     z3.BoolVal([Q.expr_text(c) for c, _ in si.columns] == ["id"] and si.where is None and not si.joins and si.source[1] == "features"), {}, replay=replay)
             # nested query: child c is selected <==> exists b: Rel(a, b, .) and Rel(b, c, .)
             Rel = _rel_fn()
+            same_text = sel[1].stmt.text == sel[2].stmt.text if hasattr(sel[1].stmt, "text") else Q.expr_text(sel[1].stmt.node) == Q.expr_text(sel[2].stmt.node)
             si2 = Q.select_info(sel[1].stmt.node)
             r1, r1v = Q.sym_row("relations", "r1", nullable=())
             r2, r2v = Q.sym_row("relations", "r2", nullable=())
@@ -498,27 +509,33 @@ def unit_gff_finish(U, prefix="C02", only_level1=True):
             spec = z3.Exists([b], z3.And(Rel(a_v, b, 1), Rel(b, c_v, 1)))
             pp, cc, ll = z3.String("pp"), z3.String("cc"), z3.Int("ll")
             lvl1 = [z3.ForAll([pp, cc, ll], z3.Implies(Rel(pp, cc, ll), ll == 1))] if only_level1 else []
+            drv = len(sel[1].args) == 1 and sel[1].args[0] is A[0][0] and len(sel[2].args) == 1 and sel[2].args[0] is A[1][0]
             U.prove(base + ".nested#p%d" % p.index, "for the id a: {child} selected <==> exists b: (a, b, 1) and (b, c, 1) in relations - second level means two level-1 edges" +
                     (" (relations holds only level-1 rows at this point of create_db)" if only_level1 else " (also when level-2 rows already exist, as in update())") +
-                    "; argument is the driving id; projected column is child",
-                    list(p.pc) + lvl1, z3.And(selected == spec, z3.BoolVal(lock and proj == ["child"] and si2.source[1] == "relations" and len(sel[1].args) == 1 and sel[1].args[0] is a_s)),
+                    "; the same query is issued for every scanned id with that id as its argument; projected column is child",
+                    list(p.pc) + lvl1, z3.And(selected == spec, z3.BoolVal(bool(lock and proj == ["child"] and si2.source[1] == "relations" and drv and same_text))),
                     vars_, replay=replay)
             # the inserted rows
             e = ins[0]
             rows = e.args if isinstance(e.args, list) else list(e.args)
-            okrows = e.how == "executemany" and len(rows) == 1 and isinstance(rows[0], dict)
-            if okrows:
+            expected = [(A[i][0], c[0]) for i in (0, 1) for c in Cs[i]]
+            goal = z3.BoolVal(False)
+            if e.how == "executemany" and all(isinstance(r, dict) for r in rows):
                 try:
-                    t, conflict, cols, vals = insert_values(e, rows[0])
-                    order = cols or Q.TABLE_COLS["relations"]
-                    row = dict(zip(order, vals))
-                    goal = z3.And(z3.BoolVal(conflict == "IGNORE" and t == "relations" and set(order) == {"parent", "child", "level"}),
-                                  veq(row["parent"], a_s), veq(row["child"], c_s), veq(row["level"], 2))
+                    got = []
+                    meta_ok = True
+                    for r in rows:
+                        t, conflict, cols, vals = insert_values(e, r)
+                        order = cols or Q.TABLE_COLS["relations"]
+                        meta_ok = meta_ok and conflict == "IGNORE" and t == "relations" and set(order) == {"parent", "child", "level"}
+                        got.append(dict(zip(order, vals)))
+                    same = lambda row, pa, ch: z3.And(veq(row["parent"], pa), veq(row["child"], ch), veq(row["level"], 2))
+                    every_expected = [z3.Or(*[same(row, pa, ch) for row in got]) if got else z3.BoolVal(False) for (pa, ch) in expected]
+                    only_expected = [z3.Or(*[same(row, pa, ch) for (pa, ch) in expected]) for row in got]
+                    goal = z3.And(z3.BoolVal(bool(meta_ok)), *(every_expected + only_expected))
                 except (Q.SQLArgs, Q.SQLSyntax, KeyError) as ex:
                     goal = z3.BoolVal(False)
-            else:
-                goal = z3.BoolVal(False)
-            U.prove(base + ".insert#p%d" % p.index, "for every (a, c) produced by the two queries exactly the row (a, c, 2) is inserted (OR IGNORE), after the temp-file round trip",
+            U.prove(base + ".insert#p%d" % p.index, "the rows inserted (OR IGNORE) are exactly {(a, c, 2)} for every scanned id a and every c its grandchild query returned - also when two ids share a grandchild - after the temp-file round trip",
                     list(p.pc), goal, vars_, replay=replay)
             # temp file hygiene (shared with C20)
             created = [x.args[0] for x in effs if x.kind == "tmp-create"]
@@ -568,12 +585,18 @@ def unit_bounded_dags(U):
     (+ a dangling parent), children/parents at levels 1, 2, None vs the statement."""
     N = 4 if U.thorough else 3
     fails, cases = [], 0
-    for n in range(1, N + 1):
-        for edges in all_dags(n):
+    # multi-parent shapes beyond the exhaustive size: a feature with two different grandparents (through two
+    # parents / through one parent with two parents), a shared grandchild, a depth-4 chain
+    extra = [(5, [(2, 0), (3, 1), (4, 2), (4, 3)]), (4, [(2, 0), (2, 1), (3, 2)]), (5, [(1, 0), (2, 0), (3, 1), (3, 2), (4, 3)]), (4, [(1, 0), (2, 1), (3, 2)])]
+    graphs = [(n, edges) for n in range(1, N + 1) for edges in all_dags(n)] + ([] if U.thorough else []) + [g for g in extra]
+    for n, edges in graphs:
+        if True:
             for perm in itertools.permutations(range(n)):
-                if n == 4 and not U.thorough:
+                if (n, edges) in extra and n == 5 and perm[0] > perm[-1]:
+                    continue
+                if n == 4 and not U.thorough and (n, edges) not in extra:
                     break
-                if n == 4 and perm[0] not in (0, 3) and len(edges) < 3:
+                if n == 4 and perm[0] not in (0, 3) and len(edges) < 3 and (n, edges) not in extra:
                     continue
                 feats = []
                 for k in perm:
@@ -608,7 +631,7 @@ def unit_bounded_dags(U):
                 if bad:
                     fails.append({"case": {"edges": edges, "order": perm, "lines": [str(f) for f in feats]}, "expected": sorted(exp), "observed": bad + " " + repr(sorted(rel))})
     U.bounded_result("C02.bounded.dags", "relations table and children/parents at every level == the Parent graph, for every DAG and line order",
-                     "all DAGs on <= %d nodes x all line permutations, one dangling Parent value" % N, cases, fails, exhaustive=True)
+                     "all DAGs on <= %d nodes x all line permutations, one dangling Parent value; plus 4 multi-parent / depth-4 shapes on 4-5 nodes (two grandparents, shared grandchild) x line permutations" % N, cases, fails, exhaustive=True)
 
 
 def c02_units():
